@@ -7,8 +7,26 @@ schedules and filters of the sinks.
 namespace Backend.PA
 open Backend Spsc
 
+/-- occurrences of statements satisfying `p` in the popped histories -/
+def cntP (s : BSt) (p : Stmt → Bool) : Nat := (s.ths.map (fun t => t.popped.countP p)).sum
+
+theorem cntP_of_ths {s s' : BSt} (h : s'.ths = s.ths) (p : Stmt → Bool) : cntP s' p = cntP s p := by
+  simp only [cntP, h]
+
+theorem cntP_setTh (s : BSt) (i : Nat) (f : Th → Th) (hf : ∀ t, (f t).popped = t.popped) (p : Stmt → Bool) :
+    cntP (s.setTh i f) p = cntP s p := by
+  simp only [cntP, BSt.setTh]
+  congr 1
+  apply List.ext_getElem?
+  intro j
+  simp only [updAt, List.getElem?_map, List.getElem?_mapIdx]
+  cases s.ths[j]? with
+  | none => rfl
+  | some t => simp only [Option.map_some]; split <;> simp [hf]
+
 structure FFrame (s s' : BSt) : Prop where
   cfg : s'.cfg = s.cfg
+  pops : ∀ p, cntP s' p = cntP s p
   popLog : s'.popLog = s.popLog
   reported : s'.reported = s.reported
   flags : s'.flags = s.flags
@@ -27,8 +45,9 @@ theorem lgOf_default_of_ge (s : BSt) (i : Nat) (h : s.lgs.length ≤ i) : s.lgOf
   simp [this]
 
 theorem FFrame.of_eq {s s' : BSt} (h1 : s'.cfg = s.cfg) (h2 : s'.popLog = s.popLog) (h3 : s'.reported = s.reported)
-    (h4 : s'.flags = s.flags) (h5 : s'.log = s.log) (h6 : s'.lgs = s.lgs) (h7 : s'.sinks = s.sinks) : FFrame s s' :=
-  ⟨h1, h2, h3, h4, ⟨[], by simpa using h5, by simp⟩, by rw [h6]; exact Nat.le_refl _, fun i _ => by simp [BSt.lgOf, h6],
+    (h4 : s'.flags = s.flags) (h5 : s'.log = s.log) (h6 : s'.lgs = s.lgs) (h7 : s'.sinks = s.sinks)
+    (h8 : s'.ths = s.ths := by rfl) : FFrame s s' :=
+  ⟨h1, cntP_of_ths h8, h2, h3, h4, ⟨[], by simpa using h5, by simp⟩, by rw [h6]; exact Nat.le_refl _, fun i _ => by simp [BSt.lgOf, h6],
    fun i hi => by
      have : s'.lgOf i = s.lgOf i := by simp [BSt.lgOf, h6]
      rw [this, lgOf_default_of_ge s i hi]; rfl,
@@ -39,7 +58,7 @@ theorem FFrame.refl (s : BSt) : FFrame s s := FFrame.of_eq rfl rfl rfl rfl rfl r
 theorem FFrame.trans {a b c : BSt} (h1 : FFrame a b) (h2 : FFrame b c) : FFrame a c := by
   obtain ⟨e1, he1, hn1⟩ := h1.log
   obtain ⟨e2, he2, hn2⟩ := h2.log
-  refine ⟨h2.cfg.trans h1.cfg, h2.popLog.trans h1.popLog, h2.reported.trans h1.reported, h2.flags.trans h1.flags,
+  refine ⟨h2.cfg.trans h1.cfg, fun p => (h2.pops p).trans (h1.pops p), h2.popLog.trans h1.popLog, h2.reported.trans h1.reported, h2.flags.trans h1.flags,
     ⟨e2 ++ e1, by rw [he2, he1, List.append_assoc], ?_⟩, Nat.le_trans h1.lgsLe h2.lgsLe, ?_, ?_, ?_⟩
   · intro e he; rcases List.mem_append.mp he with h | h
     · exact hn2 e h
@@ -59,7 +78,7 @@ theorem FFrame.trans {a b c : BSt} (h1 : FFrame a b) (h2 : FFrame b c) : FFrame 
       hb.2.2.2.2.trans ha.2.2.2.2⟩
 
 theorem FFrame.of_frame {s s' : BSt} (f : Frame s s') (hfl : s'.flags = s.flags) : FFrame s s' :=
-  ⟨f.cfg, f.popLog, f.reported, hfl, f.log, by rw [f.lgsLen]; exact Nat.le_refl _, fun i _ => f.lgs i,
+  ⟨f.cfg, cntP_of_ths f.ths, f.popLog, f.reported, hfl, f.log, by rw [f.lgsLen]; exact Nat.le_refl _, fun i _ => f.lgs i,
    fun i hi => by rw [(f.lgs i).2.2, lgOf_default_of_ge s i hi]; rfl,
    fun sid => ⟨(f.sinks sid).sid, (f.sinks sid).filtM, (f.sinks sid).filtR, (f.sinks sid).wthrow, (f.sinks sid).fthrow⟩⟩
 
@@ -89,12 +108,20 @@ theorem ensureCtx_ffr (s : BSt) (a : Nat) : FFrame s (ensureCtx s a).1 := by
   unfold ensureCtx
   split
   · exact FFrame.refl s
-  · exact FFrame.of_eq rfl rfl rfl rfl rfl rfl rfl
+  · refine ⟨rfl, fun p => ?_, rfl, rfl, rfl, ⟨[], rfl, by simp⟩, Nat.le_refl _, fun i _ => ⟨rfl, rfl, rfl⟩,
+      fun i hi => by rw [setActor_lgOf]; show (s.lgOf i).bt = none; rw [lgOf_default_of_ge s i hi]; rfl,
+      fun sid => ⟨rfl, rfl, rfl, rfl, rfl⟩⟩
+    simp [cntP, mkTh]
+
+/-- an update of one context that keeps its popped history -/
+theorem FFrame.setTh (s : BSt) (i : Nat) (f : Th → Th) (hf : ∀ t, (f t).popped = t.popped) : FFrame s (s.setTh i f) :=
+  ⟨rfl, cntP_setTh s i f hf, rfl, rfl, rfl, ⟨[], rfl, by simp⟩, Nat.le_refl _, fun i _ => ⟨rfl, rfl, rfl⟩,
+   fun i hi => by rw [setTh_lgOf, lgOf_default_of_ge s i hi]; rfl, fun sid => ⟨rfl, rfl, rfl, rfl, rfl⟩⟩
 
 theorem tryEnq_ffr (s : BSt) (ci : Nat) (st : Stmt) : FFrame s (tryEnq s ci st).1 := by
   unfold tryEnq
   dsimp only
-  split <;> exact FFrame.of_eq rfl rfl rfl rfl rfl rfl rfl
+  split <;> exact FFrame.setTh _ _ _ (fun _ => rfl)
 
 theorem enqFlow_ffr (s : BSt) (a : Nat) (st : Stmt) (cont : Nat) (first initial : Bool) :
     FFrame s (enqFlow s a st cont first initial).1 := by
@@ -109,20 +136,21 @@ theorem enqFlow_ffr (s : BSt) (a : Nat) (st : Stmt) (cont : Nat) (first initial 
   dsimp only at h2 ⊢
   have hset : ∀ (s3 : BSt) (f : Actor → Actor), FFrame s s3 → FFrame s (s3.setActor a f) :=
     fun s3 f h3 => h3.trans (FFrame.of_eq rfl rfl rfl rfl rfl rfl rfl)
-  have hbump : ∀ (f : Th → Th), FFrame s (if isLogKind st.kind = true then s2.setTh ci f else s2) := by
-    intro f
+  have hbump : ∀ (f : Th → Th), (∀ t, (f t).popped = t.popped) →
+      FFrame s (if isLogKind st.kind = true then s2.setTh ci f else s2) := by
+    intro f hf
     split
-    · exact h2.trans (FFrame.of_eq rfl rfl rfl rfl rfl rfl rfl)
+    · exact h2.trans (FFrame.setTh _ _ _ hf)
     · exact h2
   split
   · exact (hset s2 _ h2).trans (afterEnq_ffr _ a st cont)
   · split
     · split
-      · exact hset _ _ (hbump _)
-      · exact hset _ _ (hbump _)
+      · exact hset _ _ (hbump _ (fun _ => rfl))
+      · exact hset _ _ (hbump _ (fun _ => rfl))
     · apply hset
       split
-      · exact hbump _
+      · exact hbump _ (fun _ => rfl)
       · exact h2
 
 theorem frontCall_ffr (s : BSt) (a lgi : Nat) (kind : Kind) (lvl len cont : Nat) (dyn : Bool) (id : Nat)
@@ -164,17 +192,19 @@ theorem lgOf_append (s : BSt) (l : Lg) (i : Nat) (nm : List (Nat × Nat)) :
 
 /-- **no frontend operation touches what `FFrame` lists** -/
 theorem applyFront_ffr (s : BSt) (f : FOp) : FFrame s (applyFront s f).1 := by
-  have hE : ∀ s' : BSt, s'.cfg = s.cfg → s'.popLog = s.popLog → s'.reported = s.reported → s'.flags = s.flags →
-      s'.log = s.log → s'.lgs = s.lgs → s'.sinks = s.sinks → FFrame s s' :=
-    fun s' h1 h2 h3 h4 h5 h6 h7 => FFrame.of_eq h1 h2 h3 h4 h5 h6 h7
   cases f with
-  | tick dt => exact hE _ rfl rfl rfl rfl rfl rfl rfl
-  | tstart a => simp only [applyFront]; split <;> exact hE _ rfl rfl rfl rfl rfl rfl rfl
+  | tick dt => exact FFrame.of_eq rfl rfl rfl rfl rfl rfl rfl
+  | tstart a => simp only [applyFront]; split <;> exact FFrame.of_eq rfl rfl rfl rfl rfl rfl rfl
   | texit a =>
     simp only [applyFront]
     split
     · exact FFrame.refl s
-    · split <;> exact hE _ rfl rfl rfl rfl rfl rfl rfl
+    · split
+      · next i _ =>
+        have e1 : FFrame s (s.setActor a (fun x => { x with alive := false })) := FFrame.of_eq rfl rfl rfl rfl rfl rfl rfl
+        have e2 := e1.trans (FFrame.setTh _ i (fun t => { t with valid := false }) (fun _ => rfl))
+        exact e2.trans (FFrame.of_eq rfl rfl rfl rfl rfl rfl rfl)
+      · exact FFrame.of_eq rfl rfl rfl rfl rfl rfl rfl
   | resume a =>
     simp only [applyFront]
     have h1 := resume_ffr s a
@@ -183,12 +213,12 @@ theorem applyFront_ffr (s : BSt) (f : FOp) : FFrame s (applyFront s f).1 := by
     · split
       · exact h1
       · exact h1.trans (FFrame.of_eq rfl rfl rfl rfl rfl rfl rfl)
-  | armStall a => simp only [applyFront]; split <;> exact hE _ rfl rfl rfl rfl rfl rfl rfl
+  | armStall a => simp only [applyFront]; split <;> exact FFrame.of_eq rfl rfl rfl rfl rfl rfl rfl
   | log a g lvl len dyn =>
     simp only [applyFront]
     apply withLogger_ffr
     intro lgi
-    have h1 : FFrame s { s with nextId := s.nextId + 1 } := hE _ rfl rfl rfl rfl rfl rfl rfl
+    have h1 : FFrame s ({ s with nextId := s.nextId + 1 } : BSt) := FFrame.of_eq rfl rfl rfl rfl rfl rfl rfl
     split
     · exact h1.trans (frontCall_ffr ..)
     · exact h1
@@ -196,7 +226,7 @@ theorem applyFront_ffr (s : BSt) (f : FOp) : FFrame s (applyFront s f).1 := by
     simp only [applyFront]
     apply withLogger_ffr
     intro lgi
-    have h1 : FFrame s { s with nextId := s.nextId + 1 } := hE _ rfl rfl rfl rfl rfl rfl rfl
+    have h1 : FFrame s ({ s with nextId := s.nextId + 1 } : BSt) := FFrame.of_eq rfl rfl rfl rfl rfl rfl rfl
     split
     · exact h1.trans (frontCall_ffr ..)
     · exact h1
@@ -204,7 +234,7 @@ theorem applyFront_ffr (s : BSt) (f : FOp) : FFrame s (applyFront s f).1 := by
     simp only [applyFront]
     apply withLogger_ffr
     intro lgi
-    have h1 : FFrame s { s with nextId := s.nextId + 1 } := hE _ rfl rfl rfl rfl rfl rfl rfl
+    have h1 : FFrame s ({ s with nextId := s.nextId + 1 } : BSt) := FFrame.of_eq rfl rfl rfl rfl rfl rfl rfl
     split
     · exact h1.trans (frontCall_ffr ..)
     · exact h1
@@ -214,7 +244,7 @@ theorem applyFront_ffr (s : BSt) (f : FOp) : FFrame s (applyFront s f).1 := by
     simp only [applyFront]
     apply withLogger_ffr
     intro lgi
-    have h1 : FFrame s { s with nextFlag := s.nextFlag + 1 } := hE _ rfl rfl rfl rfl rfl rfl rfl
+    have h1 : FFrame s { s with nextFlag := s.nextFlag + 1 } := FFrame.of_eq rfl rfl rfl rfl rfl rfl rfl
     exact h1.trans (frontCall_ffr ..)
   | removeBlocking a g =>
     simp only [applyFront]
@@ -222,16 +252,17 @@ theorem applyFront_ffr (s : BSt) (f : FOp) : FFrame s (applyFront s f).1 := by
     · exact FFrame.refl s
     · apply withLogger_ffr
       intro lgi
-      have h1 : FFrame s (dropName { s with nextFlag := s.nextFlag + 1 } g) := hE _ rfl rfl rfl rfl rfl rfl rfl
+      have h1 : FFrame s (dropName { s with nextFlag := s.nextFlag + 1 } g) := FFrame.of_eq rfl rfl rfl rfl rfl rfl rfl
       exact h1.trans (frontCall_ffr ..)
   | remove a g =>
     simp only [applyFront]
     split
     · exact FFrame.refl s
     · split
-      · exact (hE (dropName s g) rfl rfl rfl rfl rfl rfl rfl).trans
-          ((FFrame.setLg _ _ (fun l => { l with valid := false }) (fun l => ⟨rfl, rfl, rfl⟩)).trans
-            (FFrame.of_eq rfl rfl rfl rfl rfl rfl rfl))
+      · next _ _ lgi _ _ =>
+        have e1 : FFrame s (dropName s g) := FFrame.of_eq rfl rfl rfl rfl rfl rfl rfl
+        have e2 := e1.trans (FFrame.setLg _ lgi (fun l => { l with valid := false }) (fun l => ⟨rfl, rfl, rfl⟩))
+        exact e2.trans (FFrame.of_eq rfl rfl rfl rfl rfl rfl rfl)
       · exact FFrame.refl s
   | create a g sl =>
     simp only [applyFront]
@@ -240,8 +271,8 @@ theorem applyFront_ffr (s : BSt) (f : FOp) : FFrame s (applyFront s f).1 := by
     · split
       · split
         · exact FFrame.refl s
-        · exact hE _ rfl rfl rfl rfl rfl rfl rfl
-      · refine ⟨rfl, rfl, rfl, rfl, ⟨[], rfl, by simp⟩, by simp, ?_, ?_, fun sid => ⟨rfl, rfl, rfl, rfl, rfl⟩⟩
+        · exact FFrame.of_eq rfl rfl rfl rfl rfl rfl rfl
+      · refine ⟨rfl, fun _ => rfl, rfl, rfl, rfl, ⟨[], rfl, by simp⟩, by simp, ?_, ?_, fun sid => ⟨rfl, rfl, rfl, rfl, rfl⟩⟩
         · intro i hi
           have := lgOf_append s { gid := g, sinks := sl } i ((dropName s g).names ++ [(g, s.lgs.length)])
           simp only [dropName] at this ⊢
@@ -259,7 +290,7 @@ theorem applyFront_ffr (s : BSt) (f : FOp) : FFrame s (applyFront s f).1 := by
   | setSinkLevel sid lvl =>
     simp only [applyFront]
     split
-    · refine ⟨rfl, rfl, rfl, rfl, ⟨[], rfl, by simp⟩, Nat.le_refl _, fun i _ => ⟨rfl, rfl, rfl⟩,
+    · refine ⟨rfl, fun _ => rfl, rfl, rfl, rfl, ⟨[], rfl, by simp⟩, Nat.le_refl _, fun i _ => ⟨rfl, rfl, rfl⟩,
         fun i hi => by rw [setSink_lgOf, lgOf_default_of_ge s i hi]; rfl, ?_⟩
       intro j
       show ((s.setSink sid (fun k => { k with lvl := lvl })).sinkOf j).sid = _ ∧ _
